@@ -102,12 +102,18 @@ Definition spec_op (g : list gopt) (pats : list bytes) (t : stab) (o : op) : sta
            end
   | OProbe key p =>
       (t, match slookup key t with
-          | None => ObsProbe KNoRoute (res_cip (last_sel g_sel_resolver g RNone))
+          | None => let v := (res_cip (last_sel g_sel_resolver g RNone), None) in ObsProbe KNoRoute v v v None
           | Some rt =>
               let k := dispatch_kind (eff_ignore g rt) (eff_redirect g rt)
                                      (last_sel g_sel_nomethod g false) (last_sel g_sel_autooptions g false) p in
-              (* the matched route's resolver inside route handlers, the router-wide one in every other handler *)
-              ObsProbe k (res_cip (match k with KRoute => eff_resolver g rt | _ => last_sel g_sel_resolver g RNone end))
+              (* the matched route and its resolver inside route handlers, no route and the router-wide resolver in
+                 every other handler - on the handler's context and on every copy made of it (Clone, CloneWith),
+                 including a copy a middleware hands to the rest of the chain *)
+              let v := match k with
+                       | KRoute => (res_cip (eff_resolver g rt), Some (sr_pattern rt))
+                       | _ => (res_cip (last_sel g_sel_resolver g RNone), None)
+                       end in
+              ObsProbe k v v v (match k with KRoute => Some v | _ => None end)
           end)
   | OAnnotGet key k =>
       (t, match slookup key t with
